@@ -1,5 +1,5 @@
 (* C13 -- zap's writers and WriteSyncer combinators honour the io.Writer contract.
-   Only statements closed by [exact]; the proofs are in C13/{Multi,Comb,Writers,Mutex,Proofs}.v.
+   Only statements closed by [exact]; the proofs are in C13/{Multi,Comb,Writers,Mutex,Handles,BwsFault,Proofs}.v.
    [write Fixed] / [stdlog_write Fixed] model the repaired code (fix: commits in /repo);
    [Orig] is the code as it was, kept to document the two defects (…_orig_refuted). *)
 From Coq Require Import List ZArith Bool.
@@ -224,6 +224,33 @@ Theorem C13_stdlog_message_is_trim : forall p, ascii_trim p = trim2 ascii_space 
 Proof. exact ascii_trim_trim2. Qed.
 Print Assumptions C13_stdlog_message_is_trim.
 
+(* ---- BufferedWriteSyncer over ANY sink behaviour: the io.Writer contract of its Write ---- *)
+(* The wrapped sink answers each of its Write calls from a script (full, short or zero count, with
+   or without an error) and its Sync may fail; bufio.Writer's sticky error, its retry of a short
+   direct write and io.ErrShortWrite on a short flush are modelled.  For every buffer size, every
+   history of Write / Sync / Stop / tick (before and after Stop) and every script: every Write
+   returns 0 <= n <= len p, and a count short of len p only together with an error. *)
+Theorem C13_bws_contract : forall size (ops : list fop), 0 <= size ->
+  Forall2 (fun o r => match o with
+                      | FW p _ => exists n e, r = FRW n e /\ 0 <= n <= zlen p /\ (n = zlen p \/ e <> 0)
+                      | _ => True
+                      end)
+          ops (fst (f_run (eff_size size) fbw0 ops)).
+Proof. exact (fun size ops H => f_run_contract (eff_size size) (eff_size_pos size H) ops fbw0). Qed.
+Print Assumptions C13_bws_contract.
+
+(* over a sink that is healthy throughout (every scripted answer a full count with a nil error, every
+   Sync of the sink nil): every Write returns (len p, nil), every Sync and Stop returns nil *)
+Theorem C13_bws_healthy : forall size (ops : list fop), 0 <= size -> forallb fop_healthy ops = true ->
+  Forall2 (fun o r => match o with
+                      | FW p _ => r = FRW (zlen p) 0
+                      | FSync _ _ | FStop _ _ => r = FRE []
+                      | FTick _ _ => r = FRT
+                      end)
+          ops (fst (f_run (eff_size size) fbw0 ops)).
+Proof. exact (fun size ops H Hh => f_run_healthy (eff_size size) (eff_size_pos size H) ops fbw0 Hh eq_refl). Qed.
+Print Assumptions C13_bws_healthy.
+
 (* ---- the oracle run by the driver is the proved property ---- *)
 Theorem C13_wire : forall i, wf i = true -> spec i (model i) = true.
 Proof. exact spec_model. Qed.
@@ -263,6 +290,16 @@ Example C13_ex_wf :
   wf (SL [SZ 2; SZ 0; SZ 1; SB sp_hello_nl; SB hello]) = true /\
   wf (SL [SZ 2; SZ 3; SZ 4; SL [SL [SZ 0; SB hello]; SL [SZ 1]]]) = true /\
   wf (SL [SZ 3; SL [SL [SZ 0]]; SL [SZ 0; SZ 0; SZ 0; SZ 0]]) = true.
+Proof. vm_compute. repeat split. Qed.
+(* BufferedWriteSyncer over a faulty sink: after Stop a sink that keeps all but one byte and reports
+   no error makes the Write fail with io.ErrShortWrite (-1), which then sticks; a (short, nil) answer
+   to a write that bypasses the buffer is asked again with the rest; Sync reports the flush error
+   and the sink's Sync error; a valid case of kind (2 4 ..) *)
+Example C13_ex_bws_fault :
+  fst (f_run 8 fbw0 [FW hello []; FStop [] 0; FW hello [(1, 0)]; FW hello []]) = [FRW 5 0; FRE []; FRW 5 (-1); FRW 0 (-1)] /\
+  f_run 4 fbw0 [FW hello [(2, 0)]; FSync [(0, 7)] 33; FW hello []] =
+    ([FRW 5 0; FRE [7; 33]; FRW 0 7], [SW hello; SW [x6c; x6f]; SS]) /\
+  wf (SL [SZ 2; SZ 4; SZ 4; SL [SL [SZ 0; SB hello; SL [SL [SZ 1; SZ 0]]]; SL [SZ 2; SL []; SZ 0]]]) = true.
 Proof. vm_compute. repeat split. Qed.
 (* handles: Lock(sink), Lock of it, CombineWriteSyncers of that with another sink (a second mutex
    around the first), a multi of handles 0 and 1: all go through cell 0; a call through the last
